@@ -8,7 +8,9 @@ import warnings
 from . import tlc
 
 INVS = ["InvSelf", "InvExact", "InvExactPlain", "InvDisabled", "InvNoSilentTruncation", "InvTruncBytes", "InvSize", "InvNul"]
-SYMS = {"a": b"a", "A": b"A", "b": b"b", "sp": b" ", "hi": b"\xe1", "m2": "é".encode(), "nul": b"\x00"}
+SYMS = {"a": b"a", "A": b"A", "b": b"b", "sp": b" ", "hi": b"\xe1", "m2": "é".encode(), "nul": b"\x00", "tb": b"\t", "nl": b"\n", "ff": b"\x0c"}
+HOW_CTR = [0]
+BLANK_SYMS = {"tb", "nl", "ff"}          # only enumerated for the class that ignores blanks
 
 
 def cls_expr(i, trunc=0, strip8=False, fold=False, blanks=False, nul="allow", reject=False, disabled=False):
@@ -68,7 +70,7 @@ def error_class(e):
 
 def emit_cases(chk, klass, mode, quick, seed):
     """TLC: all (p, near q) pairs for one model class; returns the emitted transitions grouped by (te, p)"""
-    consts = dict(Classes=tlc.Raw("{" + CLASSES[klass] + "}"), Sy=set(SYMS), MaxP=2 if quick else 3, MaxLen=3 if mode == "size" else 50, DoEmit=True)
+    consts = dict(Classes=tlc.Raw("{" + CLASSES[klass] + "}"), Sy=set(SYMS) - (set() if klass == "blanks" else BLANK_SYMS), MaxP=2 if quick else 3, MaxLen=3 if mode == "size" else 50, DoEmit=True)
     r = tlc.run_instance("MC_HashVerify", consts, name=f"{chk.pid}_emit", invariants=INVS, action_constraint="Emit", workers=1, coverage=False, timeout=1800)
     chk.add_tlc(f"MC_HashVerify emitting class={klass} mode={mode}", r)
     groups = {}
@@ -127,6 +129,44 @@ def libpass_hashers():
             ("libpass.BcryptHasher", BcryptHasher(rounds=4), "exact72"), ("libpass.BcryptSHA256Hasher", BcryptSHA256Hasher(rounds=4), "exact")]
 
 
+def edge_passwords(chk, name, h, w, klass, flags):
+    """the shortest passwords (p = <<>>, <<a>> and the near miss <<a, b>> of the model) under EVERY ident / variant of the hasher,
+    without the filler prefix the truncating classes otherwise get"""
+    if klass == "dis":
+        return
+    # ($2x$ is recognised but documented as not supported for hashing)
+    idents = [i for i in (getattr(w, "ident_values", None) or [None]) if i != "$2x$"]
+    ctxkw = {}
+    if "u" in flags:
+        ctxkw["user"] = "user"
+    if "r" in flags:
+        ctxkw["realm"] = "realm"
+    base = cheap_settings(name, h)
+    for ident in idents:
+        kw = dict(base)
+        if ident:
+            kw["ident"] = ident
+        try:
+            hh = h.using(**kw) if kw else h
+        except Exception:
+            continue
+        for pw, other in ((b"", b"a"), (b"a", b"ab"), (b"a", b"")):
+            if "p" in flags and not pw:
+                continue
+            chk.count((name, "edge", ident or "", len(pw), len(other)))
+            chk.action("edge")
+            try:
+                stored = hh.hash(pw, **ctxkw)
+                res = (hh.verify(pw, stored, **ctxkw), hh.verify(other, stored, **ctxkw), h.verify(pw, stored, **ctxkw))
+            except Exception as e:
+                chk.violation(f"{name}:edge:{ident or '-'}:{type(e).__name__}", f"{name} (ident {ident}): hashing / verifying the {len(pw)}-byte password raised {type(e).__name__}: {e}",
+                              {"hasher": name, "ident": ident, "password": repr(pw), "other": repr(other)})
+                continue
+            chk.evaluations += 3
+            if res != (True, False, True):
+                chk.violation(f"{name}:edge:{ident or '-'}:{res}", f"{name} (ident {ident}): password {pw!r} / near miss {other!r} verify as {res}", {"hasher": name, "ident": ident, "hash": stored})
+
+
 def run_shared(chk, focus):
     """focus = "C01": every hasher, all classes, near misses;  "C05": truncation / size / NUL policies"""
     warnings.simplefilter("ignore")
@@ -135,7 +175,7 @@ def run_shared(chk, focus):
     from passlib.context import CryptContext
     # 1. exhaustive model check over the class lattice
     lattice = tlc.Raw("{" + ", ".join(CLASSES.values()) + "}")
-    r = tlc.run_instance("MC_HashVerify", dict(Classes=lattice, Sy=set(SYMS), MaxP=2 if quick else 3, MaxLen=5, DoEmit=False), name=f"{chk.pid}_mc",
+    r = tlc.run_instance("MC_HashVerify", dict(Classes=lattice, Sy=set(SYMS) - BLANK_SYMS, MaxP=2 if quick else 3, MaxLen=5, DoEmit=False), name=f"{chk.pid}_mc",
                          invariants=INVS, action_constraint="Emit", coverage=False, timeout=1800)
     chk.add_tlc("MC_HashVerify exhaustive over the class lattice (all passwords x all near misses)", r)
     hs = handlers(chk)
@@ -147,6 +187,8 @@ def run_shared(chk, focus):
     for name, h in hs:
         klass, limit, flags = TABLE.get(name, DEFAULT)
         w = getattr(h, "wrapped", h)
+        if focus == "C01":
+            edge_passwords(chk, name, h, w, klass, flags)
         if getattr(w, "truncate_size", None) and klass not in ("des", "trunc", "lm", "reject", "trunc_nulok"):
             chk.uncovered.append(f"{name}: declares truncate_size={w.truncate_size} but is tabled as {klass}")
         modes = ["trunc"] if focus == "C01" else ["trunc", "size"]
@@ -197,15 +239,30 @@ def run_shared(chk, focus):
                 except Exception as e:
                     chk.uncovered.append(f"{name}: using() failed: {e}"[:100])
                     break
-                via_ctx = te and rnd.random() < .4
+                via_ctx = te and rnd.random() < .5
+                detail_how = ""
                 as_text = ("hi" not in p) and (rnd.random() < .5 or (te and "m2" in p)) and not (mode == "size" and "m2" in p)
 
                 def form(b, text):
                     return b.decode("utf-8") if text else b
                 try:
                     if via_ctx:
-                        cc = CryptContext(schemes=[name], **({f"{name}__{k}": v for k, v in settings.items()}),
-                                          **({f"{name}__truncate_error": True} if rnd.random() < .5 else {"truncate_error": True}))
+                        skw = {f"{name}__{k}": v for k, v in settings.items()}
+                        HOW_CTR[0] += 1
+                        how = ["update", "scheme", "copy", "global", "update-scheme"][HOW_CTR[0] % 5]
+                        detail_how = how
+                        if how == "scheme":
+                            cc = CryptContext(schemes=[name], **skw, **{f"{name}__truncate_error": True})
+                        elif how == "global":
+                            cc = CryptContext(schemes=[name], **skw, truncate_error=True)
+                        elif how == "update":          # the policy is switched on later, over an explicit "off"
+                            cc = CryptContext(schemes=[name], **skw, truncate_error=False)
+                            cc.update(truncate_error=True)
+                        elif how == "copy":
+                            cc = CryptContext(schemes=[name], **skw, truncate_error=False).copy(truncate_error=True)
+                        else:
+                            cc = CryptContext(schemes=[name], **skw, **{f"{name}__truncate_error": False})
+                            cc.update(**{f"{name}__truncate_error": True})
                         stored = cc.hash(form(pw, as_text), **ctxkw)
                     else:
                         stored = hh.hash(form(pw, as_text), **ctxkw)
@@ -215,7 +272,7 @@ def run_shared(chk, focus):
                     stored = None
                 exp_h = g["hash"]
                 tag = f"{klass}/{mode}"
-                detail = {"hasher": name, "class": klass, "mode": mode, "truncate_error": te, "via_context": via_ctx,
+                detail = {"hasher": name, "class": klass, "mode": mode, "truncate_error": te, "via_context": (detail_how if via_ctx else False),
                           "password": repr(form(pw, as_text))[:80] + ("..." if len(pw) > 70 else ""), "password_bytes": len(pw), "abstract": list(p)}
                 chk.count((name, mode, te, exp_h, len(p)))
                 chk.action(f"hash->{exp_h}")
